@@ -18,6 +18,8 @@ Definition token_ids (L : layout) : list addr :=
 
 Definition opt_code (o : option N) : N := match o with Some x => x + 1 | None => 0 end.
 Definition asset_code (a : asset) : list N := match a with ANative d => [0; d] | AToken t => [1; t] end.
+Definition wl_mask (l : list addr) : N :=
+  fold_left (fun m a => if (USER0 <=? a) && (a <? USER0 + 120) then N.lor m (N.shiftl 1 (a - USER0)) else m) l 0.
 Fixpoint wl_comb (i : N) (l : list addr) : N := match l with [] => 0 | x :: l => i * x + wl_comb (i + 1) l end.
 
 Definition obs_token (L : layout) (w : world) (t : addr) : list N :=
@@ -31,7 +33,7 @@ Definition obs_allow (L : layout) (w : world) (t : addr) : list N :=
                                    | Some tk => opt_code (t_allow tk o s) end) (pair_ids L)) (users L).
 Definition obs_pair (w : world) (p : addr) : list N :=
   match w_pairs w p with
-  | None => repeat 0 35%nat
+  | None => repeat 0 36%nat
   | Some ps =>
       [1] ++ asset_code (p_a0 ps) ++ asset_code (p_a1 ps) ++
       [p_d0 ps; p_d1 ps; p_lp ps; p_min0 ps; p_min1 ps; p_comm ps; N.of_nat (length (p_wl ps)); wl_comb 1 (p_wl ps)] ++
@@ -44,7 +46,9 @@ Definition obs_pair (w : world) (p : addr) : list N :=
       (match reg_find (w_reg w) (p_a1 ps) (p_a0 ps) with
        | None => repeat 0 8%nat
        | Some r => [1; f_pair r] ++ asset_code (f_a0 r) ++ asset_code (f_a1 r) ++ [f_d0 r; f_d1 r]
-       end)
+       end) ++
+      (* which users the pair's whitelist names, as a bit mask over user indices *)
+      [wl_mask (p_wl ps)]
   end.
 
 Definition observe (L : layout) (w : world) : list N :=
@@ -81,7 +85,7 @@ Definition off_allow (L : layout) : N := off_tokens L + n_tokens_all L * tok_str
 Definition allow_stride (L : layout) : N := l_users L * l_maxpairs L.
 Definition off_fac (L : layout) : N := off_allow L + n_tokens_all L * allow_stride L.
 Definition off_pairs (L : layout) : N := off_fac L + 1 + l_denoms L.
-Definition PAIR_STRIDE : N := 35.
+Definition PAIR_STRIDE : N := 36.
 
 Definition sget (s : list N) (i : N) : N := nth (N.to_nat i) s 0.
 Definition s_bank L s (a : addr) (d : denom) : N := sget s (acct_pos L a * l_denoms L + d).
